@@ -5,7 +5,7 @@
    others, and "exactly one of any number of concurrent Mkdir of a free name succeeds". *)
 From Coq Require Import Sorting.Permutation.
 From AF Require Import Lib.Bytes Lib.Path Lib.Ops Gen.Consts Model.MemFile Model.MemFs Model.Lin
-  Proofs.ArchiveLemmas.
+  Proofs.ArchiveLemmas Proofs.MemBelow.
 Local Open Scope nat_scope.
 
 (* ================================================================ permutations *)
@@ -455,10 +455,10 @@ Lemma set_file_mode_found m mode f : lookup m name = Some f ->
   set_file_mode m name mode = (upd_node m f (with_mode mode), ROk).
 Proof. intros H. unfold set_file_mode. rewrite Hnorm, H. reflexivity. Qed.
 
-Lemma m_mkdir_fresh m perm : lookup m name = None ->
+Lemma m_mkdir_fresh m perm : lookup m name = None -> below_file m name = false ->
   exists m', m_mkdir m name perm = (m', ROk) /\ lookup m' name <> None.
 Proof.
-  intros H. unfold m_mkdir. rewrite Hnorm, H. unfold alloc_node. cbv beta iota zeta.
+  intros H Hbf. unfold m_mkdir. rewrite Hnorm, H, Hbf. unfold alloc_node. cbv beta iota zeta.
   match goal with |- context [reg ?s2 ?it ?pm] => set (s3 := reg s2 it pm) end.
   assert (H3 : lookup s3 name <> None).
   { unfold s3, reg. apply register_keeps. unfold lookup; cbn. rewrite alist_get_set_same. discriminate. }
@@ -502,7 +502,9 @@ Definition mk_thr_ok (cr : bool) (th : lthread lop res lpc) : Prop :=
 Definition mk_inv (c : lcfg lstate lop res lpc) : Prop :=
   cnt mk_pending (lg_thr c) + cnt mk_won (lg_lin c) = (if mk_created (lg_st c) then 1 else 0) /\
   Forall (fun x => mk_res_ok (lc_res x)) (lg_lin c) /\
-  Forall (mk_thr_ok (mk_created (lg_st c))) (lg_thr c).
+  Forall (mk_thr_ok (mk_created (lg_st c))) (lg_thr c) /\
+  (* until the directory is made the name stays creatable: not below a regular file *)
+  (mk_created (lg_st c) = false -> below_file (fst (lg_st c)) name = false).
 
 Ltac use_set H :=
   match goal with |- context [list_set _ ?v (lg_thr _)] => specialize (H v); cbn [mk_pending lt_phase] in H end.
@@ -537,7 +539,7 @@ Qed.
 (* one section of a Mkdir of [name]: what it does to "created", to the count of winners *)
 Lemma mk_inv_event c t : mk_inv c -> mk_inv (lin_event (ln_sec k) LnStart c t).
 Proof.
-  intros (HC & HR & HT). unfold lin_event.
+  intros (HC & HR & HT & HB). unfold lin_event.
   destruct (nth_error (lg_thr c) t) as [th|] eqn:Et; [|repeat split; assumption].
   pose proof (nth_error_Forall _ _ _ _ HT Et) as Hth.
   pose proof (fun v => cnt_list_set mk_pending (lg_thr c) t v th Et) as Hset.
@@ -564,6 +566,7 @@ Proof.
         -- rewrite cnt_app. use_set Hset. cbn. lia.
         -- apply Forall_app. split; [exact HR|]. constructor; [now right|constructor].
         -- apply Forall_list_set; [exact HT|]. unfold mk_thr_ok; cbn. split; [exact Htd|]. split; [reflexivity|now right].
+        -- discriminate.
       * unfold mk_inv; cbn [lg_st lg_clk lg_thr lg_lin]. repeat split; try assumption.
         -- use_set Hset. lia.
         -- apply Forall_list_set; [exact HT|]. unfold mk_thr_ok; cbn. split; [exact Htd|]. split; [now exists perm|tauto].
@@ -580,6 +583,7 @@ Proof.
            ++ rewrite cnt_app. use_set Hset. cbn. lia.
            ++ apply Forall_app. split; [exact HR|]. constructor; [now right|constructor].
            ++ apply Forall_list_set; [exact HT|]. unfold mk_thr_ok; cbn. split; [exact Htd|]. split; [reflexivity|now right].
+           ++ discriminate.
         -- unfold ln_atomic. rewrite lin_step_mkdir, Hex. cbn [fst snd lin_proj].
            unfold mk_inv; cbn [lg_st lg_clk lg_thr lg_lin].
            assert (E2 : mk_created (mkM (mdata (lin_now m)) (mheap (lin_now m)) (mhandles (lin_now m)) (mclock (lin_now m) + 1)%Z, sl) = true).
@@ -588,8 +592,11 @@ Proof.
            ++ rewrite cnt_app. use_set Hset. cbn. lia.
            ++ apply Forall_app. split; [exact HR|]. constructor; [now right|constructor].
            ++ apply Forall_list_set; [exact HT|]. unfold mk_thr_ok; cbn. split; [exact Htd|]. split; [reflexivity|now right].
+           ++ discriminate.
       * (* free: this call creates the directory *)
-        destruct (m_mkdir_fresh name Hnorm (lin_now m) perm) as (m' & Hmk & Hl'); [exact El|].
+        assert (Hbf : below_file (lin_now m) name = false).
+        { rewrite <- (HB ltac:(unfold mk_created; cbn [fst]; now rewrite El)). apply below_file_ext; reflexivity. }
+        destruct (m_mkdir_fresh name Hnorm (lin_now m) perm) as (m' & Hmk & Hl'); [exact El | exact Hbf|].
         assert (HT' : Forall (mk_thr_ok true) (lg_thr c)) by (eapply Forall_impl; [apply mk_thr_ok_mono|exact HT]).
         destruct (sc_mkdir_setmode k).
         -- rewrite Hmk. unfold mk_inv; cbn [lg_st lg_clk lg_thr lg_lin].
@@ -599,6 +606,7 @@ Proof.
            ++ exact HR.
            ++ apply Forall_list_set; [exact HT'|]. unfold mk_thr_ok; cbn. split; [exact Htd|]. split; [now exists perm|].
               right; right. split; [reflexivity|eexists; reflexivity].
+           ++ discriminate.
         -- unfold ln_atomic. rewrite lin_step_mkdir, Hmk. cbn [fst snd lin_proj].
            unfold mk_inv; cbn [lg_st lg_clk lg_thr lg_lin].
            assert (E2 : mk_created (mkM (mdata m') (mheap m') (mhandles m') (mclock m' + 1)%Z, sl) = true).
@@ -607,6 +615,7 @@ Proof.
            ++ rewrite cnt_app. use_set Hset. cbn. lia.
            ++ apply Forall_app. split; [exact HR|]. constructor; [now left|constructor].
            ++ apply Forall_list_set; [exact HT'|]. unfold mk_thr_ok; cbn. split; [exact Htd|]. split; [reflexivity|now left].
+           ++ discriminate.
     + (* the trailing setFileMode of the winner *)
       rewrite Hcr in Hcr1, HC, HT.
       destruct (lookup m name) as [f|] eqn:El; [|discriminate].
@@ -620,12 +629,14 @@ Proof.
       * rewrite cnt_app. use_set Hset. cbn. lia.
       * apply Forall_app. split; [exact HR|]. constructor; [now left|constructor].
       * apply Forall_list_set; [exact HT|]. unfold mk_thr_ok; cbn. split; [exact Htd|]. split; [reflexivity|now left].
+      * discriminate.
   - (* return *)
     destruct Hth as (Htd & Hcr1 & Hr).
     unfold mk_inv; cbn [lg_st lg_clk lg_thr lg_lin]. repeat split.
     + rewrite cnt_won_set_resp. use_set Hset. lia.
     + rewrite lin_set_resp_map. apply Forall_map. eapply Forall_impl; [|exact HR]. intros x Hx. cbn. now rewrite lin_resp_fn_res.
     + apply Forall_list_set; [exact HT|]. unfold mk_thr_ok; cbn. left. split; [exact Htd|exact Hcr1].
+    + exact HB.
 Qed.
 
 Lemma mk_inv_run sched : forall c, mk_inv c -> mk_inv (fold_left (lin_event (ln_sec k) LnStart) sched c).
@@ -633,10 +644,11 @@ Proof. induction sched as [|t r IH]; intros c H; cbn; [exact H|]. apply IH. now 
 
 Definition mk_progs (perms : list Z) : list (list lop) := map (fun perm => [(None, Mkdir name perm)]) perms.
 
-Lemma mk_inv_start (s0 : lstate) perms : lookup (fst s0) name = None -> mk_inv (lin_start s0 (mk_progs perms)).
+Lemma mk_inv_start (s0 : lstate) perms : lookup (fst s0) name = None -> below_file (fst s0) name = false ->
+  mk_inv (lin_start s0 (mk_progs perms)).
 Proof.
-  intros H. unfold mk_inv, lin_start, mk_progs; cbn [lg_st lg_thr lg_lin].
-  unfold mk_created. rewrite H. repeat split.
+  intros H Hbf. unfold mk_inv, lin_start, mk_progs; cbn [lg_st lg_thr lg_lin].
+  unfold mk_created. rewrite H. repeat split; [| | |intros _; exact Hbf].
   - rewrite map_map. induction perms as [|p r IH]; [reflexivity|]. cbn [map]. rewrite cnt_cons. cbn. exact IH.
   - constructor.
   - rewrite map_map. apply Forall_forall. intros th Hth. apply in_map_iff in Hth as (perm & <- & _).
@@ -658,16 +670,17 @@ Qed.
 Lemma lin_run_threads sched : forall c, length (lg_thr (fold_left (lin_event (ln_sec k) LnStart) sched c)) = length (lg_thr c).
 Proof. induction sched as [|t r IH]; intros c; cbn; [reflexivity|]. now rewrite IH, lin_event_threads. Qed.
 
-(* Among ANY number of concurrent Mkdir calls of one free name, under ANY interleaving of their
-   sections, exactly one reports success and every other one reports "exists". *)
+(* Among ANY number of concurrent Mkdir calls of one free name that does not lie below a regular
+   file (there every call answers ENOTDIR), under ANY interleaving of their sections, exactly one
+   reports success and every other one reports "exists". *)
 Theorem mkdir_exactly_one (s0 : lstate) perms sched :
-  lookup (fst s0) name = None -> perms <> [] ->
+  lookup (fst s0) name = None -> below_file (fst s0) name = false -> perms <> [] ->
   lin_quiescent (ln_run k s0 (mk_progs perms) sched) = true ->
   cnt mk_won (lg_lin (ln_run k s0 (mk_progs perms) sched)) = 1 /\
   Forall (fun x => lc_res x = ROk \/ lc_res x = RErr (EW KExist)) (lg_lin (ln_run k s0 (mk_progs perms) sched)).
 Proof.
-  intros Hfree Hne Hq. unfold ln_run, lin_run in *.
-  pose proof (mk_inv_run sched _ (mk_inv_start s0 perms Hfree)) as (HC & HR & HT).
+  intros Hfree Hbf Hne Hq. unfold ln_run, lin_run in *.
+  pose proof (mk_inv_run sched _ (mk_inv_start s0 perms Hfree Hbf)) as (HC & HR & HT & _).
   pose proof (lin_run_threads sched (lin_start s0 (mk_progs perms))) as Hlen.
   unfold lin_quiescent in Hq. rewrite forallb_forall in Hq.
   set (c := fold_left (lin_event (ln_sec k) LnStart) sched (lin_start s0 (mk_progs perms))) in *.
